@@ -543,7 +543,9 @@ impl Match {
                         distance
                     )));
                 }
-                if *length < MIN_FAR2_LONG_LENGTH as u32 {
+                // the variable-length code carries (length - 34 - 32768) in at most 30 bits
+                const MAX_VAR_LENGTH: u32 = MIN_FAR2_LONG_LENGTH as u32 + 32768 + ((1u32 << 30) - 1);
+                if *length < MIN_FAR2_LONG_LENGTH as u32 || *length > MAX_VAR_LENGTH {
                     return Err(ZiporaError::invalid_data(format!(
                         "Invalid Far3Long length: {}",
                         length
